@@ -67,6 +67,7 @@ def check(ctx, base, steps, offset, suffix):
     if str(c.value) != text:
         ctx.violation("relative-pointer-does-not-print-its-text", case, {"text": text, "printed": str(c.value)})
         return
+    ctx.remember("relative-pointer-application", lambda: repr(impl.call(lambda: str(RelativeJSONPointer(text).to(JSONPointer(base_text)))).value), limit=150)
     bp = JSONPointer(base_text)
     routes = {
         "rel.to(from_parts base)": lambda: c.value.to(JSONPointer.from_parts(list(base))),
